@@ -5,6 +5,7 @@ package main
 // what was acknowledged, what was deleted, which bytes each session received.
 import (
 	"bufio"
+	"regexp"
 	"encoding/json"
 	"fmt"
 	"os"
@@ -23,6 +24,7 @@ type manShadow struct {
 	mts      map[string]bool // media types it was acknowledged under
 	subject  string          // real digest string of the subject ("" none)
 	refDesc  string          // canonical referrers descriptor (descList form)
+	refSize  int             // marshalled size of a response that lists only this descriptor
 	at       string          // artifact type used by the filter
 	blobGone bool
 }
@@ -86,6 +88,23 @@ func (m *Monitors) restarted(h *H) {
 	for _, rs := range m.repos {
 		rs.refDirty = true // configuration may have changed
 	}
+}
+
+var reRepo = regexp.MustCompile(`^[a-z0-9]+(?:(?:\.|_|__|-+)[a-z0-9]+)*(?:\/[a-z0-9]+(?:(?:\.|_|__|-+)[a-z0-9]+)*)*$`)
+
+// routable: the repository name is of the OCI grammar and not one the directory store refuses
+func (m *Monitors) routable(h *H, repo string) bool {
+	if !reRepo.MatchString(repo) {
+		return false
+	}
+	if kv(h.confToks, "store") == "dir" {
+		for _, p := range strings.Split(repo, "/") {
+			if p == "index.json" || p == "oci-layout" || p == "blobs" {
+				return false
+			}
+		}
+	}
+	return true
 }
 
 var registeredCodes = map[string]bool{
@@ -535,6 +554,9 @@ func (m *Monitors) served(h *H, what, repo, real string, want []byte, known bool
 func (m *Monitors) bGet(h *H, op string, a []string, r Resp) {
 	m.common(h, op, r)
 	repo, tok := a[0], a[1]
+	if !m.routable(h, repo) {
+		return
+	}
 	if !validDigestTok(tok) {
 		if r.Status != 400 || r.Code != "DIGEST_INVALID" {
 			m.flag(h, "C15.code-for-condition", fmt.Sprintf("%s with unparsable digest answered %d %s", op, r.Status, r.Code))
@@ -703,6 +725,9 @@ func (m *Monitors) mPut(h *H, a []string, r Resp) {
 		}
 		ms.at = at
 		ms.refDesc = fmt.Sprintf("%s/%s/%d/%s/%s", h.tk.tokDigest(real), mt, len(body), at, bi.ann)
+		one, _ := json.Marshal(types.Index{SchemaVersion: 2, MediaType: types.MediaTypeOCI1ManifestList, Manifests: []types.Descriptor{{
+			MediaType: mtRealOf(mt), Digest: digest.Digest(real), Size: int64(len(body)), ArtifactType: mtRealOf(at), Annotations: parseAnn(bi.ann)}}})
+		ms.refSize = len(one)
 		if want := h.tk.tokDigest(ms.subject); r.Subj != want {
 			m.flag(h, "C07.oci-subject", fmt.Sprintf("push of an artifact reports OCI-Subject %q, expected %s", r.Subj, want))
 		}
@@ -799,6 +824,9 @@ func (m *Monitors) mDel(h *H, a []string, r Resp) {
 func (m *Monitors) tags(h *H, a []string, r Resp) {
 	m.common(h, "TAGS", r)
 	repo := a[0]
+	if !m.routable(h, repo) {
+		return
+	}
 	rs := m.repo(repo)
 	if r.Status != 200 {
 		if r.Status != 999 && r.Status < 500 && !(r.Status == 400 && r.Code == "NAME_INVALID") {
@@ -855,6 +883,9 @@ func (m *Monitors) tags(h *H, a []string, r Resp) {
 func (m *Monitors) refs(h *H, a []string, r Resp) {
 	m.common(h, "REFS", r)
 	repo, sTok := a[0], a[1]
+	if !m.routable(h, repo) {
+		return
+	}
 	rs := m.repo(repo)
 	if !*h.conf.API.Referrer.Enabled {
 		return
@@ -874,9 +905,13 @@ func (m *Monitors) refs(h *H, a []string, r Resp) {
 	subject := h.tk.realDigest(sTok)
 	filter := kv(a, "at")
 	exp := map[string]bool{}
+	tooBig := map[string]bool{} // single entries that cannot fit on a page of their own may be missing
 	for _, ms := range rs.mans {
 		if ms.subject == subject && ms.refDesc != "" && (filter == "" || ms.at == filter) {
 			exp[ms.refDesc] = true
+			if int64(ms.refSize) > h.conf.API.Referrer.Limit && h.conf.API.Referrer.Limit > 0 {
+				tooBig[ms.refDesc] = true
+			}
 		}
 	}
 	got := []string{}
@@ -896,7 +931,7 @@ func (m *Monitors) refs(h *H, a []string, r Resp) {
 	paged := r.Link != "" || kv(a, "page") != "" || kv(a, "cache") != ""
 	if !paged {
 		for e := range exp {
-			if !seen[e] {
+			if !seen[e] && !tooBig[e] {
 				m.flag(h, "C07.refs-exact", fmt.Sprintf("referrers of %s lacks %s", sTok, e))
 			}
 		}
